@@ -9,6 +9,7 @@ import multiprocessing, os, traceback
 import prudp_session as ps
 import crash_session as cs
 import l1_corr
+import l1_stream
 import c02_ended_check
 
 LEVEL = "proof"
@@ -270,7 +271,15 @@ def run(ctx):
                 ctx.violation("c02:%s:%s" % (key, "lite" if cfgd.get("transport") == "lite" else "v%d" % cfgd["version"]), what, {"cfg": cfgd, "kill": kill, "seed": seed,
                               "ops": [[o[0], o[1], o[2], o[3]] for o in se.ops] if se else None,
                               "how": "harness/corr_C02.py work((0, cfg, seed, kill)) / harness/crash_session.run(cfg, seed, kill); kill = ('special', s): run_special(cfg, seed, s); ('two-clients', how): run_two_clients(cfg, seed, how)"})
-            r = l1_corr.compare(drv, se, "x") if se is not None and cfgd.get("rmc") != "slow" and not getattr(se, "skip_l1", False) else {"ok": True, "diffs": [], "skipped": True}
+            if se is not None and cfgd.get("transport") == "lite" and cfgd.get("rmc") != "slow":
+                # stream transports: replayed through L1 from the reads / writes of the simulated streams (harness/l1_stream.py)
+                r = l1_stream.compare(drv, se, "x")
+                if not r.get("skipped"):
+                    ctx.tag("l1-stream-replay")
+                    if r.get("prefix"):
+                        ctx.tag("l1-stream-replay:prefix-only")
+            else:
+                r = l1_corr.compare(drv, se, "x") if se is not None and cfgd.get("rmc") != "slow" and not getattr(se, "skip_l1", False) else {"ok": True, "diffs": [], "skipped": True}
             if not r["ok"]:
                 ndiff += 1
                 if first is None:
